@@ -43,6 +43,14 @@ def sCo (ev : String) : List String :=
   | _ :: rest :: _ => let inner := (rest.splitOn "]").headD ""; if inner.isEmpty then [] else inner.splitOn ","
   | _ => []
 
+/-- status.remotePhases of an `S` event on an ObjectSet, as `name:uid` strings. -/
+def sRp (ev : String) : List String :=
+  match ev.splitOn "rp=[" with
+  | _ :: rest :: _ => let inner := (rest.splitOn "]").headD ""; if inner.isEmpty then [] else inner.splitOn ","
+  | _ => []
+
+def sName (ev : String) : String := (ev.splitOn " ").getD 1 ""
+
 def sOk (ev : String) : Bool := ev.startsWith "S " && ((ev.splitOn " ").getD 2 "") == "ok"
 
 def hasCond (cs : List (String × String × String × String × String)) (t s : String) : Bool :=
@@ -153,8 +161,15 @@ def judgePhaseStep (scn : SysCommon.Scn) (cfg : Cfg) (st : JStep) (pre : Sys) (o
   return none
 
 
+/-- The ObjectSet as the property sees it: every phase lists its inline objects AND the objects of
+every ObjectSlice that ever belonged to it in the spec — whether or not the slice still exists. -/
+def fullSpec (scn : SysCommon.Scn) (o : OSet) : OSet :=
+  let extra := sliceObjs scn o.name
+  if extra.all (·.isEmpty) then o
+  else { o with phases := o.phases.zipIdx.map fun (ph, i) => { ph with objs := ph.objs ++ extra.getD i [] } }
+
 def judge (which : Which) (scn : SysCommon.Scn) (cfg : Cfg) (st : JStep) (pre : Sys) (out : StepOut) : Option String := Id.run do
-  let some o := pre.sets st.set | return none
+  let some o := (pre.sets st.set).map (fullSpec scn) | return none
   let fs := factsOf cfg o pre
   let archivedDone := condTrue o.conds "Archived"
   let tearing := o.deleting || o.lifecycle == .archived
@@ -213,6 +228,21 @@ def judge (which : Which) (scn : SysCommon.Scn) (cfg : Cfg) (st : JStep) (pre : 
             match findCond po.conds "Available" with
             | some c => if c.status != "True" || c.obsGen != po.gen then return some s!"bad available-trusts-stale-or-failing-phase-report {po.name}"
             | none => return some s!"bad available-without-phase-report {po.name}"
+    -- "realised through exactly one ObjectSetPhase that … exists from rollout until teardown" is what
+    -- adoption decisions of the NEXT revision rest on (`isControlledByPreviousRevision` reads
+    -- status.remotePhases of the previous revision): a status update never drops a phase object that
+    -- the ObjectSet reported before, that still exists under the same uid and that it still controls
+    -- – whichever phase the pass stopped at, whichever path (probe failure, preflight / collision
+    -- error, pause, archival in progress) wrote the status.
+    for se in out.setEvents do
+      if sOk se && sName se == o.name then
+        let rp := sRp se
+        for r in o.remotePhases do
+          match pre.w.phases r.1 with
+          | some po =>
+            if po.uid == r.2 && po.ctrlName == o.name && po.ctrlUID == o.uid && !rp.contains s!"{r.1}:{r.2}" then
+              return some s!"bad live-phase-object-dropped-from-remotePhases {r.1} (exists, controlled by {o.name}, was reported before; status now lists [{",".intercalate rp}])"
+          | none => pure ()
     return none
   | .c03 =>
     if tearing || archivedDone || !quiet st || dupKeys then return none
